@@ -367,6 +367,23 @@ pub(crate) fn chapoly_decrypt_noise(
     chapoly_decrypt_ietf(key, &final_nonce_bytes, ciphertext, ad)
 }
 
+/// Verification hook: public pass-through to the crate-private Noise AEAD (encrypt).
+#[cfg(feature = "verif")]
+pub fn verif_chapoly_encrypt_noise(key: &[u8], nonce: u64, ad: &[u8], plaintext: &[u8]) -> Vec<u8> {
+    chapoly_encrypt_noise(key, nonce, ad, plaintext)
+}
+
+/// Verification hook: public pass-through to the crate-private Noise AEAD (decrypt).
+#[cfg(feature = "verif")]
+pub fn verif_chapoly_decrypt_noise(
+    key: &[u8],
+    nonce: u64,
+    ad: &[u8],
+    ciphertext: &[u8],
+) -> Result<Vec<u8>, ChaPolyDecryptError> {
+    chapoly_decrypt_noise(key, nonce, ad, ciphertext)
+}
+
 /// RFC 8439 ChaCha20-Poly1305 decrypt function.
 /// The key must be 32 bytes and the nonce must be 12 bytes.
 /// The 16 byte poly1305 tag must be appended to the ciphertext.
